@@ -514,6 +514,10 @@ def _nearmiss_case(draw):
     if why == 'ws':
       i = draw(st.integers(1, len(name) - 1))
       ws = draw(st.sampled_from(WS + (['\n'] if where in ('ref', 'macro') else [])))
+      if where in ('key', 'block', 'macrodef') and draw(st.integers(0, 3)) == 0:
+        # a continuation inside the name whose next line is indented by exactly (or about) the
+        # width already consumed: the name's two halves end up in "adjacent" columns
+        ws = '\\\n' + ' ' * (i + draw(st.sampled_from([0, 0, 1, -1])))
       bad_name = _inject(name, i, ws)
       if name[i - 1].isalnum() and name[i].isalnum():
         why = 'ws-splits-identifier'
